@@ -324,7 +324,7 @@ def gen_pair(rng, tier):
     if S['n'] >= 6 and (density(S) > 0.8 or density(S) < 0.12) and (density(G) > 0.8 or density(G) < 0.12):
         S = {'n': 5, 'edges': {e: c for e, c in S['edges'].items() if e[0] < 5 and e[1] < 5}}
     ncol = rng.choice([1, 1, 1, 2, 3])
-    ecol = rng.choice([1, 1, 1, 2])
+    ecol = rng.choice([1, 1, 2, 2, 3])
     for g in (G, S):
         g['colors'] = [rng.randrange(ncol) for _ in range(g['n'])]
         g['edges'] = {e: rng.randrange(ecol) for e in g['edges']}
@@ -347,7 +347,7 @@ class C06Check(core.Check):
             'brute-force enumeration; the result sets of all schedules of a pair must coincide. distinct = scenario digest; '
             'non-trivial = pattern with >= 2 nodes and at least one isomorphism or common subgraph of size >= 2')
     probes_expected = ['nontrivial_symmetry', 'lcs_smaller_than_pattern', 'order_differs_between_schedules', 'string_mode_pairs',
-                       'narrow_hash_collisions', 'no_isomorphism', 'shared_instance_call_history', 'symmetry_cache_shared']
+                       'narrow_hash_collisions', 'no_isomorphism', 'shared_instance_call_history', 'symmetry_cache_shared', 'cache_warmed_by_other_pattern']
 
     def budgets(self, tier):
         if tier == 'thorough':
@@ -362,7 +362,7 @@ class C06Check(core.Check):
             calls = ['iso:0', 'lcs:0', 'iso:1', 'lcs:1']
             rng.shuffle(calls)
             schedules.append({'hash': rng.choice(['wide', 'wide', 'narrow', 'rank', 'tiny']), 'seed': rng.randrange(1 << 30),
-                              'calls': calls, 'shared': rng.random() < 0.5, 'cache': rng.random() < 0.4})
+                              'calls': calls, 'shared': rng.random() < 0.5, 'cache': rng.random() < 0.4, 'decoy': rng.random() < 0.6})
         sc = {'G': encode_graph(G), 'S': encode_graph(S), 'schedules': schedules}
         if rng.random() < (0.04 if tier != 'thorough' else 0.02):
             sc['string_seeds'] = [rng.randrange(1 << 32) for _ in range(2)]
@@ -426,6 +426,21 @@ class C06Check(core.Check):
                     stats.probes['shared_instance_call_history'] += 1
                 if cache is not None:
                     stats.probes['symmetry_cache_shared'] += 1
+                if cache is not None and sch.get('decoy'):
+                    # the symmetry cache is shared between matcher objects for DIFFERENT patterns (repair_graph hands one
+                    # cache to every residue): first match a decoy with the same nodes and edges but the edge / node
+                    # colours placed differently, then the real pair with the same cache
+                    drng = core.sub_rng(sch['seed'], 'decoy')
+                    D = {'n': S['n'], 'colors': list(S['colors']), 'edges': dict(S['edges'])}
+                    ecols = list(D['edges'].values())
+                    drng.shuffle(ecols)
+                    D['edges'] = dict(zip(D['edges'].keys(), ecols))
+                    if drng.random() < 0.5:
+                        ncols = list(D['colors'])
+                        drng.shuffle(ncols)
+                        D['colors'] = ncols
+                    run_ismags(G, D, gkeys, skeys, ginv, sinv, calls=['iso:1', 'lcs:1'], shared=False, cache=cache)
+                    stats.probes['cache_warmed_by_other_pattern'] += 1
                 got = run_ismags(G, S, gkeys, skeys, ginv, sinv, calls=sch.get('calls'), shared=bool(sch.get('shared')), cache=cache)
             except Exception as err:
                 import traceback
